@@ -48,7 +48,7 @@ def execute(case):
     import anyio
     from anyio import Event, create_task_group, get_cancelled_exc_class
     from asphalt.core import (AsyncResourceError, Component, ComponentStartError, Context, ResourceNotFound, add_resource, context_teardown,
-                              add_resource_factory, add_teardown_callback, get_resource, start_component, start_service_task)
+                              add_resource_factory, add_teardown_callback, get_resource, get_resource_nowait, get_resources, start_component, start_service_task)
 
     prog, sched = case["prog"], list(case["hist"])
     burst = case.get("burst", False)
@@ -70,6 +70,7 @@ def execute(case):
         fin = {}
         classes = {}
         fc, fphase = prog["fail"]["c"], prog["fail"]["phase"]
+        sync_ok = not any(op["k"] == "add" and op["x"] == "afac" for sc_ in prog["sp"] + prog["ss"] for op in sc_)
 
         def make_boom(what):
             # one execution in three fails with an exception that is itself a ComponentStartError (as a nested start_component would raise)
@@ -92,7 +93,8 @@ def execute(case):
         def actual_name(op, value, T0):
             outer = state["outer"]
             if op["x"] in ("res", "res2"):
-                for nm, v in outer.get_resources(T0).items():
+                # read back through the component's own context (module-level shortcut): it must show what the surrounding context holds
+                for nm, v in get_resources(T0).items():
                     if v is value:
                         return nm
                 return "?"
@@ -194,7 +196,13 @@ def execute(case):
                             elif op["x"] == "wait":
                                 v = await get_resource(T, op["n"])
                             elif op["x"] == "opt":
-                                v = await get_resource(T, op["n"], optional=True)
+                                # the synchronous API of the component's context is equivalent here unless an async factory is in play
+                                if sync_ok and (case.get("seed", 0) + c) % 2:
+                                    v = get_resource_nowait(T, op["n"], optional=True)
+                                else:
+                                    v = await get_resource(T, op["n"], optional=True)
+                            elif sync_ok and (case.get("seed", 0) + c) % 2:
+                                v = get_resource_nowait(T, op["n"])
                             else:
                                 v = await state["outer"].get_resource(T, op["n"])
                             if v is None:
